@@ -214,66 +214,85 @@ Fixpoint children_ok (n : nat) (d : list Z) (max_index : Z) : bool :=
 
 Inductive f2step := E2Ok (e : f2entry) (rest : list Z) (consumed : Z) | E2Err | E2Panic.
 
+(* EntryData::read, field group by field group: Some (semantic ok flag / value, remaining data) | None = read error *)
+(* FEATURES_AND_DESIGN_SPACE *)
+Definition f2_feat (flags : Z) (d0 : list Z) : option (bool * list Z) :=
+  if flag flags 1 then
+    match take 1 d0 with
+    | None => None
+    | Some (fc, d1) =>
+        match take (4 * be_val fc) d1 with
+        | None => None
+        | Some (_, d2) =>
+            match take 2 d2 with
+            | None => None
+            | Some (dc, d3) =>
+                match take (12 * be_val dc) d3 with
+                | None => None
+                | Some (segs, d4) => Some (segments_ok (Z.to_nat (be_val dc)) segs, d4)
+                end
+            end
+        end
+    end
+  else Some (true, d0).
+(* CHILD_INDICES *)
+Definition f2_child (flags : Z) (d4 : list Z) (nprior : Z) : option (bool * list Z) :=
+  if flag flags 2 then
+    match take 1 d4 with
+    | None => None
+    | Some (mm, d5) =>
+        let cnt := Z.land (be_val mm) 127 in
+        match take (3 * cnt) d5 with
+        | None => None
+        | Some (idx, d6) => Some (children_ok (Z.to_nat cnt) idx nprior, d6)
+        end
+    end
+  else Some (true, d4).
+(* ENTRY_ID_DELTA: Int24 *)
+Definition f2_delta (flags : Z) (d6 : list Z) : option (Z * list Z) :=
+  if flag flags 4 then
+    match take 3 d6 with None => None | Some (dl, d7) => Some (be_signed 24 dl, d7) end
+  else Some (0, d6).
+(* PATCH_FORMAT *)
+Definition f2_pfmt (flags : Z) (d7 : list Z) (default_fmt : Z) : option (Z * list Z) :=
+  if flag flags 8 then
+    match take 1 d7 with None => None | Some (pf, d8) => Some (be_val pf, d8) end
+  else Some (default_fmt, d7).
+
 Section Format2.
   (* IntSet::<u32>::from_sparse_bit_set_bounded(data, bias, 0x10FFFF): Some remaining data | None = Err *)
   Variable sbs : list Z -> Z -> option (list Z).
 
+  (* decode_format2_codepoints: Some remaining data | None = Err *)
+  Definition f2_codepoints (flags : Z) (cp_data : list Z) : option (list Z) :=
+    let fmt := Z.land flags 48 in
+    if fmt =? 0 then Some cp_data
+    else
+      let bias_skip :=
+        if fmt =? 32 then match take 2 cp_data with Some (b, r) => Some (be_val b, r) | None => None end
+        else if fmt =? 48 then match take 3 cp_data with Some (b, r) => Some (be_val b, r) | None => None end
+        else Some (0, cp_data) in
+      match bias_skip with
+      | None => None
+      | Some (bias, sb) => sbs sb bias
+      end.
+
   (* decode_format2_entry.  nprior = entries.len(), last_id = id of the previous entry (0 if none) *)
   Definition f2_entry (data : list Z) (start_byte nprior last_id default_fmt : Z) : f2step :=
-    (* EntryData::read: walk all conditional fields *)
     match take 1 data with
     | None => E2Err
     | Some (fl, d0) =>
         let flags := be_val fl in
-        let feat :=                                  (* FEATURES_AND_DESIGN_SPACE *)
-          if flag flags 1 then
-            match take 1 d0 with
-            | None => None
-            | Some (fc, d1) =>
-                match take (4 * be_val fc) d1 with
-                | None => None
-                | Some (_, d2) =>
-                    match take 2 d2 with
-                    | None => None
-                    | Some (dc, d3) =>
-                        match take (12 * be_val dc) d3 with
-                        | None => None
-                        | Some (segs, d4) => Some (segments_ok (Z.to_nat (be_val dc)) segs, d4)
-                        end
-                    end
-                end
-            end
-          else Some (true, d0) in
-        match feat with
+        match f2_feat flags d0 with
         | None => E2Err
         | Some (segs_ok, d4) =>
-            let child :=                             (* CHILD_INDICES *)
-              if flag flags 2 then
-                match take 1 d4 with
-                | None => None
-                | Some (mm, d5) =>
-                    let cnt := Z.land (be_val mm) 127 in
-                    match take (3 * cnt) d5 with
-                    | None => None
-                    | Some (idx, d6) => Some (children_ok (Z.to_nat cnt) idx nprior, d6)
-                    end
-                end
-              else Some (true, d4) in
-            match child with
+            match f2_child flags d4 nprior with
             | None => E2Err
             | Some (ch_ok, d6) =>
-                let delta :=                          (* ENTRY_ID_DELTA: Int24 *)
-                  if flag flags 4 then
-                    match take 3 d6 with None => None | Some (dl, d7) => Some (be_signed 24 dl, d7) end
-                  else Some (0, d6) in
-                match delta with
+                match f2_delta flags d6 with
                 | None => E2Err
                 | Some (dv, d7) =>
-                    let pfmt :=                       (* PATCH_FORMAT *)
-                      if flag flags 8 then
-                        match take 1 d7 with None => None | Some (pf, d8) => Some (be_val pf, d8) end
-                      else Some (default_fmt, d7) in
-                    match pfmt with
+                    match f2_pfmt flags d7 default_fmt with
                     | None => E2Err
                     | Some (pf, cp_data) =>
                         (* semantic checks, in source order; all of them are plain errors *)
@@ -284,20 +303,7 @@ Section Format2.
                           if (new_id <? 0) || (4294967295 <? new_id) then E2Err
                           else if negb ((pf =? 1) || (pf =? 2) || (pf =? 3)) then E2Err
                           else
-                            (* decode_format2_codepoints *)
-                            let fmt := Z.land flags 48 in
-                            let after_cp :=
-                              if fmt =? 0 then Some cp_data
-                              else
-                                let bias_skip :=
-                                  if fmt =? 32 then match take 2 cp_data with Some (b, r) => Some (be_val b, r) | None => None end
-                                  else if fmt =? 48 then match take 3 cp_data with Some (b, r) => Some (be_val b, r) | None => None end
-                                  else Some (0, cp_data) in
-                                match bias_skip with
-                                | None => None
-                                | Some (bias, sb) => sbs sb bias
-                                end in
-                            match after_cp with
+                            match f2_codepoints flags cp_data with
                             | None => E2Err
                             | Some rest =>
                                 (* consumed = codepoint_data_byte_range().end - remaining_data.len() (usize) *)
